@@ -40,7 +40,7 @@ from . import C07_nautilus as N
 
 OBLIGATION_FLOOR = 30
 Z3_TIMEOUT_MS = 40000
-UNITS = ['Ellipsoid', 'Union', 'NautilusBound']
+UNITS = ['Ellipsoid', 'Union', 'NautilusBound', 'Mixture']
 BRANCH_COVERED_FUNCTIONS = ()
 DEAD_BRANCHES = ()
 BQ = 'nautilus.bounds.'
@@ -461,7 +461,14 @@ def build(cx, fe, tier, info, only=None):
         union_units(cx, fe, info)
     if only in (None, 'NautilusBound'):
         nautilus_units(cx, fe, info)
+    if only in (None, 'Mixture'):
+        from .C07_mixture import mixture_units
+        mixture_units(cx, fe, info, refinement=True)
     info['assumptions'] = [
+        'C08: UnitCubeEllipsoidMixture: the sample is the join of a cube-part '
+        'draw and an ellipsoid-part draw (M1), log_v is the ellipsoid volume '
+        '(M2): product of two uniform distributions is uniform on the product '
+        '(probabilistic lemma, assumed)',
         'C08: the probabilistic lemma (volume-proportional component choice + '
         'acceptance with probability 1/multiplicity gives a uniform '
         'distribution on the union; the accepted fraction estimates the volume '
